@@ -178,4 +178,40 @@ theorem blueprintless_store_breaks_next_iteration :
      get? (flatComp 4 (addIteration looped [nextIter]).doc 1 nextIter).opts 51 = some [.ch 101] ∧
      get? (flatComp 4 (addIteration R [nextIter]).doc 1 nextIter).opts 51 = none) := by decide
 
+/-! ### a writer that files components under their name alone
+
+(`Instance.storeByName`, NOT the code that exists.)  `stage0.sim` and `stage1.sim` (name 30) share a name;
+`stage1.collect` (31) consumes `stage1.sim`.  The experiment in memory has three components, the description such a
+writer stores has two: the lookup of (0, 30) answers nothing after the reload, the component set and the resolved
+configurations differ - while a description with stage-unique names is stored exactly as the real store does. -/
+
+def twoStages : Exp :=
+  { doc := { vars := [(0, ⟨[(10, [.ch 49])], []⟩)], bps := [],
+             comps := [ { stage := 0, name := 30, isDoc := false, opts := [(23, [.ch 120])], vars := [], ovr := [] },
+                        { stage := 1, name := 30, isDoc := false, opts := [(23, [.ch 121])], vars := [], ovr := [] },
+                        { stage := 1, name := 31, isDoc := false, opts := [(23, [.ref 10])], vars := [], ovr := [] } ] },
+    plat := 0, patches := [] }
+
+theorem store_keeps_namesakes_of_different_stages :
+    compIds (store 2 twoStages) = [(0, 30, false), (1, 30, false), (1, 31, false)] := by decide
+
+theorem reload_answers_each_namesake_its_own_configuration :
+    (runningConfig 2 (reload 2 twoStages)).map (fun r => (r.stage, r.name, get? r.opts 23))
+      = [(0, 30, some [.ch 120]), (1, 30, some [.ch 121]), (1, 31, some [.ch 49])]
+    ∧ (runningConfig 2 twoStages).map (fun r => (r.stage, r.name, get? r.opts 23))
+      = [(0, 30, some [.ch 120]), (1, 30, some [.ch 121]), (1, 31, some [.ch 49])] := by decide +kernel
+
+theorem name_keyed_store_loses_a_component :
+    compIds (storeByName 2 twoStages) = [(1, 30, false), (1, 31, false)]
+    ∧ (findComp (store 2 twoStages) 0 30).isSome = true
+    ∧ findComp (storeByName 2 twoStages) 0 30 = none := by decide +kernel
+
+theorem name_keyed_reload_has_a_component_less :
+    (runningConfig 2 (reloadByName 2 twoStages)).map (fun r => (r.stage, r.name))
+      = [(1, 30), (1, 31)] := by decide +kernel
+
+theorem name_keyed_store_invisible_with_unique_names :
+    (let E : Exp := { twoStages with doc := { twoStages.doc with comps := twoStages.doc.comps.drop 1 } }
+     compIds (storeByName 2 E) = compIds (store 2 E)) := by decide +kernel
+
 end St4sd.C07.Witness
